@@ -1451,3 +1451,73 @@ def additive_leaves(e):
             return None
         return a + b
     return [e]
+
+
+def order_constraint(facts, fn, site, const):
+    """orderings of (value vs `const`) that hold on every path to block `site`: intersection over the
+    comparison edges against that constant which dominate the site.  Returns (frozenset, n_edges)."""
+    allowed = set(_ORD_ALL)
+    n = 0
+    for bi, sw in all_switches(facts, fn).items():
+        c = cmp_of(sw)
+        if c is None:
+            continue
+        op, a, b = c
+        sa, sb = strip(a), strip(b)
+        if sb[0] == 'const' and sb[1] == const and sa[0] != 'const':
+            flip = False
+        elif sa[0] == 'const' and sa[1] == const and sb[0] != 'const':
+            flip = True
+        else:
+            continue
+        lhs, rhs, regs = cmp_regions(sw, flip)
+        for s2, o in regs.items():
+            if fn.dominated_by_edges(site, [(bi, s2)]):
+                allowed &= o
+                n += 1
+    return frozenset(allowed), n
+
+
+def predicate_atoms(sw):
+    """what a switch tests, as coarse atoms: 'call:<fn>' for the outermost h2 call, 'field:<name>' for a field read;
+    std adaptor calls (Option::take, as_ref, Deref ...) are looked through"""
+    out = set()
+
+    def leaf(x):
+        x = strip(x)
+        if x[0] == 'call':
+            if x[1].startswith(('proto::', 'frame::', 'codec::', 'hpack::', 'client::', 'server::', 'share::')):
+                out.add('call:' + x[1].rsplit('::', 1)[-1])
+            elif x[2]:
+                leaf(x[2][0])
+        elif x[0] == 'field':
+            out.add('field:' + x[3])
+        elif x[0] in ('bin',):
+            leaf(x[2])
+            leaf(x[3])
+        elif x[0] in ('un', 'cast', 'discr', 'variant'):
+            leaf(x[1] if x[0] != 'un' else x[2])
+    c = cmp_of(sw)
+    if c is not None:
+        leaf(c[1])
+        leaf(c[2])
+    else:
+        leaf(sw.subject)
+    return out
+
+
+def dominating_atoms(facts, fn, site):
+    """atoms of the subjects of every switch one of whose edges dominates `site` (the conjunction of conditions
+    under which the site executes); tracing-generated switches and drop-flag tests are skipped"""
+    atoms = set()
+    for bi, sw in all_switches(facts, fn).items():
+        t = fn.term(bi)
+        if t.get('exp') and any(k in t['exp'] for k in ('trace', 'debug', 'event', 'span')):
+            continue
+        if sw is None:
+            continue
+        doms = [s for s in sw.labels if fn.dominated_by_edges(site, [(bi, s)])]
+        if not doms or len(doms) == len(sw.labels):
+            continue
+        atoms |= predicate_atoms(sw)
+    return atoms
